@@ -317,17 +317,21 @@ Definition do_stat (s : sess) (fid : N) (w : bool) (ts : list tok) : R3 :=
       (g_use e s, if fs_err (tokn ts 0) then RErr EFs else ROk 0, [if w then CWStat e else CStat e])
   end.
 
-(* ---- Stop: Clunk every entry still bound (locks are not consulted); the SFids stay in the table ---- *)
+(* ---- Stop: for every SFid in the table: Lock (waits for an operation in flight on it - in
+   this sequential model a held lock is a leaked one: Stop never returns), CompareAndDelete,
+   Clunk the entry if it is bound, Unlock; repeated until the table is empty ---- *)
 Definition stop_one (acc : sess * list call) (kv : N * sfid) : sess * list call :=
   let '(s, cs) := acc in
   let '(f, sf) := kv in
   match s_ent sf with
-  | None => (s, cs)
+  | None => (unreserve f s, cs)
   | Some (e, _) =>
       let s1 := g_release e RcStop (g_use e s) in
-      (set_refs (<[f := SFid None (s_file sf) (s_mode sf) (s_locked sf)]> (refs s1)) s1, cs ++ [CClunk e])
+      (unreserve f s1, cs ++ [CClunk e])
   end.
+Definition any_locked (s : sess) : bool := existsb (fun kv => s_locked (snd kv)) (map_to_list (refs s)).
 Definition do_stop (s : sess) : R3 :=
+  if any_locked s then (s, RHang, []) else
   let '(s', cs) := fold_left stop_one (map_to_list (refs s)) (s, []) in (s', ROk 0, cs).
 
 Definition sstep (s : sess) (o : op) (ts : list tok) : R3 :=
@@ -346,20 +350,15 @@ Definition sstep (s : sess) (o : op) (ts : list tok) : R3 :=
   | OStop => do_stop s
   end.
 
-(* Stop arriving while operation o is inside its file-system call and holds its fid's lock
-   (the connection goes away while a request is still being served).  Modelled for the
-   operations that do nothing but Unlock after that call - stat, wstat, read, write: the call
-   has been made (its outcome is the token's), Stop runs on the table with that SFid locked -
-   it does not consult the locks - and then the operation returns and unlocks.
-   First component: Stop (state, result, its calls); second: the operation as it returns. *)
-Definition op_simple_fid (o : op) : option N :=
-  match o with OStat f | OWStat f | ORead f | OWrite f => Some f | _ => None end.
+(* Stop arriving while operation o is inside a file-system call, holding its fid's lock (or the
+   reservation of the fid it is about to bind): Stop's Lock waits until the operation has
+   returned, so the interleaving is "the operation returns, then Stop releases".  Clunk and
+   Remove have taken their SFid out of the table before they call the file system: Stop does
+   not wait for them (stop_waits = false), and does not see their fid.
+   First component: the operation as it returns; second: Stop. *)
+Definition stop_waits (o : op) : bool := match o with OClunk _ | ORemove _ => false | _ => true end.
 Definition inflight_stop (s : sess) (o : op) (ts : list tok) : R3 * R3 :=
-  let '(s1, r, cs) := sstep s o ts in
-  match op_simple_fid o with
-  | Some f => let '(s2, r2, cs2) := do_stop (lock f s1) in ((s2, r2, cs2), (unlock f s2, r, cs))
-  | None => ((s1, r, cs), (s1, r, cs))
-  end.
+  let '(s1, r, cs) := sstep s o ts in ((s1, r, cs), do_stop s1).
 
 (* A run stops at the first operation that hangs (the harness cannot go on
    either: the goroutine never returns).  One element per executed operation:
